@@ -153,6 +153,7 @@ void __wrap_free(void *ptr);
 
 typedef struct {
     void *ptr;
+    void *base;         /* what the real allocator returned (ptr = base + placement shift) */
     size_t size;        /* nmemb * size as requested */
     int size_known;     /* 0 if nmemb * size overflowed */
     int live;
@@ -165,16 +166,43 @@ static unsigned long next_ordinal = 1;
 static unsigned long fail_in;           /* k-th logged request from now fails; 0 = off */
 static volatile int logging;            /* non-zero while a library call is in progress */
 
+/* Placement perturbation: malloc guarantees 16-byte alignment only, so the blocks handed to the library cycle through the
+   residues 0, 16, 32, 48 modulo 64 (DRIVER_ALLOCSHIFT=0 switches it off).  Code that silently assumes a
+   32- or 64-byte aligned calloc result sees every case. */
+static unsigned long place_count;
+static void *place_calloc(size_t nmemb, size_t size, void **base)
+{
+    static int shift_on = -1;
+    size_t total, shift;
+    unsigned char *b;
+    if (shift_on < 0) {
+        const char *e = getenv("DRIVER_ALLOCSHIFT");
+        shift_on = !(e && e[0] == '0');
+    }
+    if (!shift_on || (size != 0 && nmemb > (SIZE_MAX - 128) / size)) {
+        *base = __real_calloc(nmemb, size);
+        return *base;
+    }
+    total = nmemb * size;
+    b = __real_calloc(1, total + 128);
+    if (!b) { *base = NULL; return NULL; }
+    *base = b;
+    /* first a 64-byte boundary, then the residue of this request */
+    shift = (64 - ((size_t)(uintptr_t)b & 63)) & 63;
+    shift += 16 * (place_count++ & 3);
+    return b + shift;
+}
+
 void *__wrap_calloc(size_t nmemb, size_t size)
 {
-    void *p = NULL;
+    void *p = NULL, *base = NULL;
     if (!logging)
         return __real_calloc(nmemb, size);
     logging = 0;
     if (fail_in != 0 && --fail_in == 0) {
         emit("allocfail");
         errno = ENOMEM;
-    } else if ((p = __real_calloc(nmemb, size)) == NULL) {
+    } else if ((p = place_calloc(nmemb, size, &base)) == NULL) {
         emit("allocfail");
         errno = ENOMEM;
     } else {
@@ -189,6 +217,7 @@ void *__wrap_calloc(size_t nmemb, size_t size)
         }
         r = &recs[nrecs++];
         r->ptr = p;
+        r->base = base;
         r->size_known = (size == 0 || nmemb <= SIZE_MAX / size);
         r->size = r->size_known ? nmemb * size : 0;
         r->live = 1;
@@ -232,7 +261,7 @@ void __wrap_free(void *ptr)
         }
         emit("free %lu %s", live->ordinal, state);
         live->live = 0;
-        __real_free(ptr);
+        __real_free(live->base);
     } else if (dead) {
         /* Block was already freed: contents cannot be inspected and the
            pointer must not reach the real free() a second time */
